@@ -217,7 +217,12 @@ func worker(args []string) {
 		local := map[string]bool{}
 		var e *vsync.Explorer
 		e = &vsync.Explorer{Body: sc.Body, MaxBound: sc.Bound,
-			Before: func(prefix []int) { j.write(idx, sc.Name, prefix) },
+			Before: func(prefix []int) {
+				if rl != nil {
+					rl.skip() // reports of an execution that was not evaluated (a re-run of an already checked schedule in a later bound iteration) must not be charged to the next one
+				}
+				j.write(idx, sc.Name, prefix)
+			},
 			Stop: func() bool {
 				checks++
 				return checks&0x3f == 0 && time.Now().After(deadline)
